@@ -75,6 +75,10 @@ def prepare_corpus(pid=None, tier=None):
             with open(os.path.join(out, "m_literal_matrix_%02d.sol" % part), "w") as f:
                 f.write(randsol.literal_matrix(["0.8.17", "0.7.6", "^0.8.4"][part % 3], part))
         n += randsol.MATRIX_PARTS
+        # every shape of assignment target under every form of update
+        with open(os.path.join(out, "l_lvalue_matrix.sol"), "w") as f:
+            f.write(randsol.lvalue_matrix("0.8.17"))
+        n += 1
         # every form of string literal in every place a detector reads one, on both sides of the version gates
         for ver in ("0.8.3", "^0.8.4", "0.7.6", "0.4.24"):
             with open(os.path.join(out, "s_string_matrix_%s.sol" % ver.replace("^", "c").replace(".", "_")), "wb") as f:
@@ -883,6 +887,10 @@ def _pipeline(chk, tier, pid, beh):
              {"entries": [fl("Many.sol", "c9"), dr("more", [fl("Many2.sol", "c9"), fl("b.sol", "c6")])]},
              # deeply nested expressions between ordinary findings (c10), listed before and after other files
              {"entries": [fl("A.sol", "c1"), fl("Deep.sol", "c10"), dr("sub", [fl("Deep2.sol", "c10"), fl("Z.sol", "c2")]), fl("Z.sol", "c5")]},
+             # several findings of one pattern inside one declaration (c11)
+             {"entries": [fl("Wrapped.sol", "c11"), dr("again", [fl("Wrapped.sol", "c11"), fl("a.sol", "c5")])]},
+             # a reformatted copy of a file under the same name elsewhere in the tree (vendored code): its lines are its own
+             {"entries": [dr("lib", [fl("Token.sol", "c1"), fl("Other.sol", "c2r")]), dr("vendor", [fl("Token.sol", "c1r"), fl("Other.sol", "c2")])]},
              # entries whose names differ in letter case only (files and directories): different entries all the same
              {"entries": [fl("Token.sol", "c5"), fl("token.sol", "c6"), fl("TOKEN.sol", "c1"), dr("Lib", [fl("a.sol", "c1")]), dr("lib", [fl("A.sol", "c2")])]},
              # nothing to report at all: the (empty) report is written all the same, over whatever was there
@@ -1002,8 +1010,11 @@ def _c14_execute(hb, sb, inputs):
         cwd = os.path.join(scratch, "cwd")
         os.makedirs(cwd)
         bindrive.make_witness_dir(os.path.join(cwd, "P"), "P")
-        bindrive.make_witness_dir(os.path.join(cwd, "T"), "T")
-        for furnished in (cwd, os.path.join(cwd, "P"), os.path.join(cwd, "T")):
+        # the directory a configuration file names ("T" in the model) is concretely called `~T`: a relative name that starts
+        # with a character shells treat specially is a name like any other for a path read from a file or an argument
+        tdir = "~T"
+        bindrive.make_witness_dir(os.path.join(cwd, tdir), "T")
+        for furnished in (cwd, os.path.join(cwd, "P"), os.path.join(cwd, tdir)):
             bindrive.furnish(furnished)
         reports = os.path.join(scratch, "reports")
         os.makedirs(reports)
@@ -1025,7 +1036,7 @@ def _c14_execute(hb, sb, inputs):
                     f.write(sentinel)
             if inp["toml"]:
                 with open(os.path.join(cwd, "cfg.toml"), "w") as f:
-                    f.write(bindrive.toml_text(inp["toml"][0], inp["toml"][0]["path"]))
+                    f.write(bindrive.toml_text(inp["toml"][0], tdir if inp["toml"][0]["path"] == "T" else inp["toml"][0]["path"]))
             # every equivalent spelling of the two options (--path X, -p X, --path=X, -pX, either order)
             args = bindrive.spell_args(inp["flag"], "cfg.toml" if inp["toml"] else "", inp)
             code, err = bindrive.run_solstat(sb, cwd, args)
